@@ -223,7 +223,7 @@ fn drive_engine(id: &str, flavour: &str, rng: &mut Rng, maxops: u64) -> Runner {
     let fluct = if flavour == "fluct" { *rng.pick(&[1i64, 2, 5]) } else { *rng.pick(&[0i64, 0, 0, 0, 5]) };
     let plr = match flavour {
         "liq" => *rng.pick(&[0i64, 0, 25, 25, 50, 100]),
-        "fluct" => *rng.pick(&[25i64, 25, 50, 100]),
+        "fluct" => *rng.pick(&[25i64, 25, 50, 100, 0]),
         _ => *rng.pick(&[0i64, 0, 0, 25, 100]),
     };
     let (imr, mmr) = *rng.pick(&[(5i64, 5i64), (5, 5), (10, 5), (10, 10), (20, 3)]);
@@ -238,7 +238,9 @@ fn drive_engine(id: &str, flavour: &str, rng: &mut Rng, maxops: u64) -> Runner {
                                (1000, 162), (2500, 700), (700, 2500)]);
     let mut vs = vec![];
     for _ in 0..nv {
-        vs.push(json!({"x": px, "y": py, "toll": toll, "spread": spread, "fluct": fluct, "period": 3600, "hcap": hcap, "oicap": oicap}));
+        // the (funding) TWAP interval is configurable from one minute to one week
+        let twapint = *rng.pick(&[3600i64, 3600, 3600, 3600, 300, 60, 900, 7200]);
+        vs.push(json!({"x": px, "y": py, "toll": toll, "spread": spread, "fluct": fluct, "period": 3600, "hcap": hcap, "oicap": oicap, "twapint": twapint}));
     }
     let dep = json!({
         "collateral": if native {"native"} else {"cw20"}, "dec": 2,
@@ -328,8 +330,14 @@ fn drive_engine(id: &str, flavour: &str, rng: &mut Rng, maxops: u64) -> Runner {
                 0
             };
             let limit = if rng.chance(8) { rng.range(1, 5000) } else { 0 };
-            r.op(&json!({"k": "tx", "c": "engine", "m": "open_position", "s": t,
-                "a": {"vamm": v, "side": side, "margin": margin, "leverage": lev, "limit": limit}, "funds": funds}));
+            if rng.chance(7) {
+                // slippage limit right at the vAMM's own quote for the trade (one unit either side of it)
+                r.op(&json!({"k": "open_lim", "s": t, "v": v, "side": side, "margin": margin, "leverage": lev,
+                    "off": *rng.pick(&[-1i64, 0, 1]), "funds": funds}));
+            } else {
+                r.op(&json!({"k": "tx", "c": "engine", "m": "open_position", "s": t,
+                    "a": {"vamm": v, "side": side, "margin": margin, "leverage": lev, "limit": limit}, "funds": funds}));
+            }
         } else if roll < 50 && has && rng.chance(30) {
             // top the margin up so that the position is worth exactly zero (margin + pnl - funding = 0),
             // then close it: a close that pays nothing
@@ -351,7 +359,14 @@ fn drive_engine(id: &str, flavour: &str, rng: &mut Rng, maxops: u64) -> Runner {
             r.op(&json!({"k": "tx", "c": "engine", "m": "close_position", "s": t, "a": {"vamm": v, "limit": 0}}));
         } else if roll < 50 || (flavour == "fluct" && has && roll < 68) {
             let who = if has { t } else { *rng.pick(&TRADERS[..3]) };
-            let limit = if rng.chance(8) { rng.range(1, 50000) } else { 0 };
+            // slippage limit of the close: none, arbitrary, or one the trade certainly satisfies
+            // (a long receives at least 1; a short pays at most a huge amount)
+            let long = num(&pos(&post, &v, who)["size"]) > 0;
+            let limit = match rng.below(100) {
+                0..=7 => rng.range(1, 50000),
+                8..=17 => if long { 1 } else { 10_000_000 },
+                _ => 0,
+            };
             let extra = if native && rng.chance(6) { rng.range(1, 200) } else { 0 };
             r.op(&json!({"k": "tx", "c": "engine", "m": "close_position", "s": who, "a": {"vamm": v, "limit": limit}, "funds": extra}));
         } else if roll < 55 {
